@@ -732,3 +732,166 @@ def update_sessions(tier, seed):
                 cases.append({"cid": cid, "kind": "upd", "mode": "write", "query": text, "dump": True, "meta": {"ast": ast, "rep": 2}})
         sessions.append({"id": "upd/%d" % g, "setup": setup, "dump": True, "cases": cases})
     return sessions
+
+
+# ----------------------------------------------------------------------------- C13 / C14 / C24: C API scripts
+def _props_ast(props):
+    return [[k, ["lit", tv_of(v)]] for k, v in props.items()]
+
+
+def _props_txt(props):
+    return (" {" + ", ".join("%s: %s" % (k, lit_text(v)) for k, v in props.items()) + "}") if props else ""
+
+
+def npat(v, labels=(), props=None):
+    props = props or {}
+    return ({"v": v, "labels": list(labels), "props": _props_ast(props)},
+            "(%s%s%s)" % (v, "".join(":" + l for l in labels), _props_txt(props)))
+
+
+def chain(nodes, rels):
+    """nodes: [npat..]; rels: [(var, type, dir)]; usable for MATCH (types list) and CREATE (tcps)"""
+    txt = nodes[0][1]
+    rs = []
+    for (rv, t, d), n in zip(rels, nodes[1:]):
+        inner = "%s:%s" % (rv, t)
+        txt += ("-[%s]->" % inner if d == "out" else "<-[%s]-" % inner) + n[1]
+        rs.append({"v": rv, "types": [t], "tcps": [cps(t)], "dir": d, "props": [], "lo": 1, "hi": 1})
+    return {"nodes": [n[0] for n in nodes], "rels": rs}, txt
+
+
+def stmt(parts=(), updates=()):
+    ast = {"parts": [p[0] for p in parts], "updates": [u[0] for u in updates]}
+    return ast, " ".join([p[1] for p in parts] + [u[1] for u in updates])
+
+
+def m_match(pattern, where=None):
+    w = ["none"] if where is None else where[0]
+    return ({"t": "match", "opt": False, "pats": [pattern[0]], "where": w},
+            "MATCH " + pattern[1] + ("" if where is None else " WHERE " + where[1]))
+
+
+def u_create(pattern):
+    return {"t": "create", "pats": [pattern[0]]}, "CREATE " + pattern[1]
+
+
+def u_set(var, key, val):
+    return ({"t": "set", "items": [{"k": "prop", "var": var, "key": key, "e": ["lit", tv_of(val)]}]},
+            "SET %s.%s = %s" % (var, key, lit_text(val)))
+
+
+def u_delete(vs, detach=False):
+    return {"t": "delete", "detach": detach, "vars": list(vs)}, ("DETACH " if detach else "") + "DELETE " + ", ".join(vs)
+
+
+def u_merge_node(v, label, key, val, oncreate=None, onmatch=None):
+    p = npat(v, [label], {key: val})
+    pat = {"nodes": [p[0]], "rels": []}
+    txt = "MERGE " + p[1]
+    oc, om = [], []
+    if oncreate:
+        oc = [{"k": "prop", "var": v, "key": oncreate[0], "e": ["lit", tv_of(oncreate[1])]}]
+        txt += " ON CREATE SET %s.%s = %s" % (v, oncreate[0], lit_text(oncreate[1]))
+    if onmatch:
+        om = [{"k": "prop", "var": v, "key": onmatch[0], "e": ["lit", tv_of(onmatch[1])]}]
+        txt += " ON MATCH SET %s.%s = %s" % (v, onmatch[0], lit_text(onmatch[1]))
+    return {"t": "merge", "pat": pat, "mpat": pat, "oncreate": oc, "onmatch": om}, txt
+
+
+def eq_pred(var, key, val):
+    return ["cmp", "=", ["prop", ["var", var], key], ["lit", tv_of(val)]], "%s.%s = %s" % (var, key, lit_text(val))
+
+
+def S(ast_text, noref=False):
+    ast, text = ast_text
+    return {"query": text, "meta": {"ast": ast, "noref": noref}}
+
+
+def RAW(text):
+    return {"query": text, "meta": {"ast": {"parts": [], "updates": []}, "noref": True}}
+
+
+CAPI_SETUP = ["CREATE (h:Hub {p: 1})-[:L]->(s:Spoke {p: 2}), (h)-[:L]->(:Spoke {p: 3}), (:Lone {p: 4})"]
+
+
+def capi_sessions(tier, seed):
+    rng = random.Random(seed)
+    fail_raw = [
+        "UNWIND ['true', 'false', 1, 'true'] AS x CREATE (:T {v: toBoolean(x)})",
+        "UNWIND [[1], [2], {a: 1}] AS x CREATE (:T {v: x[0]})",
+        "CREATE (a:T {k: 1}) WITH a MATCH (h:Hub) DELETE h",
+        "MATCH (s:Spoke) CREATE (:T {v: toInteger(s.p = 2)})",
+        "CREATE (:T {v: 1}) CREATE (:T {v: toBoolean(1)})",
+        "MATCH (s:Spoke) SET s.p = toBoolean(s.p)",
+        "CREATE (a:T) SET a.x = 1 WITH a UNWIND [1, 0] AS d MATCH (h:Hub) WHERE d = 0 DELETE h",
+        "THIS IS NOT CYPHER (",
+    ]
+    ok_a = S(stmt(updates=[u_create(chain([npat("a", ["Ok"], {"n": 1})], []))]))
+    ok_b = S(stmt(updates=[u_create(chain([npat("a", ["Ok"], {"n": 2}), npat("b", ["Ok2"])], [("", "K", "out")]))]))
+    ok_set = S(stmt(parts=[m_match(chain([npat("l", ["Lone"])], []))], updates=[u_set("l", "touched", True)]))
+    del_hub = S(stmt(parts=[m_match(chain([npat("h", ["Hub"])], []))], updates=[u_delete(["h"])]))        # must fail: connected
+    # --- C13
+    c13 = []
+    cid = 0
+    for f in fail_raw:
+        cid += 1
+        c13.append({"cid": cid, "kind": "upd", "api": "exec", "query": f, "meta": {"ast": {"parts": [], "updates": []}, "noref": True, "prop": "C13"}})
+    cid += 1
+    c13.append(dict(cid=cid, kind="upd", api="exec", query=del_hub["query"], meta=dict(del_hub["meta"], prop="C13")))
+    for f in fail_raw:
+        for end in ("commit", "rollback"):
+            cid += 1
+            stmts = [ok_a, RAW(f), ok_set] if rng.random() < 0.5 else [RAW(f), ok_b]
+            c13.append({"cid": cid, "kind": "txn", "api": "txn", "stmts": stmts, "end": end, "query": " ; ".join(s["query"] for s in stmts),
+                        "meta": {"prop": "C13"}})
+    cid += 1
+    c13.append({"cid": cid, "kind": "txn", "api": "txn", "stmts": [ok_a, del_hub, ok_b], "end": "commit",
+                "query": "ok ; delete connected hub ; ok", "meta": {"prop": "C13"}})
+    # --- C24
+    X = lambda props=None: npat("x", ["X"], props or {})
+    scripts24 = [
+        [S(stmt(updates=[u_create(chain([npat("x", ["X"], {"k": 1})], []))])),
+         S(stmt(parts=[m_match(chain([npat("n", ["X"])], []))], updates=[u_set("n", "v", 2)]))],
+        [S(stmt(updates=[u_create(chain([npat("x", ["X"], {"k": 1})], []))])),
+         S(stmt(parts=[m_match(chain([npat("n", ["X"])], []))], updates=[u_create(chain([npat("n"), npat("y", ["Y"])], [("", "R", "out")]))]))],
+        [S(stmt(updates=[u_create(chain([npat("x", ["X"], {"k": 1})], []))])),
+         S(stmt(updates=[u_merge_node("n", "X", "k", 1, oncreate=("c", 1), onmatch=("m", 1))]))],
+        [S(stmt(updates=[u_create(chain([npat("a", ["X"]), npat("b", ["Y"])], [("", "R", "out")]))])),
+         S(stmt(parts=[m_match(chain([npat("a", ["X"]), npat("b", ["Y"])], [("r", "R", "out")]))], updates=[u_delete(["r"])]))],
+        [S(stmt(parts=[m_match(chain([npat("h", ["Hub"])], []))], updates=[u_set("h", "p", 5)])),
+         S(stmt(parts=[m_match(chain([npat("h", ["Hub"])], []), )], updates=[u_set("h", "q", 6)])),
+         S(stmt(parts=[m_match(chain([npat("h", ["Hub"])], []), where=eq_pred("h", "p", 5))], updates=[u_set("h", "seen", True)]))],
+        [S(stmt(updates=[u_create(chain([npat("x", ["X"], {"k": 1})], []))])),
+         S(stmt(parts=[m_match(chain([npat("n", ["X"])], []))], updates=[u_delete(["n"], detach=True)])),
+         S(stmt(updates=[u_merge_node("n", "X", "k", 1, oncreate=("again", True))]))],
+    ]
+    c24 = []
+    for i, sc in enumerate(scripts24):
+        for end in ("commit", "rollback"):
+            c24.append({"cid": len(c24) + 1, "kind": "txn", "api": "txn", "stmts": sc, "end": end,
+                        "query": " ; ".join(s["query"] for s in sc), "meta": {"prop": "C24"}})
+    # --- C14
+    mk = S(stmt(updates=[u_create(chain([npat("a", ["N1"]), npat("b", ["N2"])], [("", "R", "out")]))]))
+    del_a = S(stmt(parts=[m_match(chain([npat("a", ["N1"])], []))], updates=[u_delete(["a"])]))
+    del_b = S(stmt(parts=[m_match(chain([npat("b", ["N2"])], []))], updates=[u_delete(["b"])]))
+    ddel_a = S(stmt(parts=[m_match(chain([npat("a", ["N1"])], []))], updates=[u_delete(["a"], detach=True)]))
+    # a relationship created earlier in the same statement must block a plain DELETE of its endpoint
+    cd1 = S(stmt(updates=[u_create(chain([npat("a", ["N3"]), npat("b", ["N4"])], [("", "R", "out")])), u_delete(["a"])]))
+    cd2 = S(stmt(parts=[m_match(chain([npat("h", ["Hub"])], []))],
+                 updates=[u_create(chain([npat("h"), npat("t", ["Tmp"])], [("", "R", "out")])), u_delete(["t"])]))
+    cd3 = S(stmt(updates=[u_create(chain([npat("a", ["N5"]), npat("b", ["N6"])], [("e", "R", "out")])), u_delete(["e", "a"])]))   # fine: e goes too
+    c14 = [
+        {"cid": 1, "kind": "txn", "api": "txn", "stmts": [mk, del_a], "end": "commit", "query": "create (a)-[:R]->(b) ; delete a", "meta": {"prop": "C14"}},
+        {"cid": 2, "kind": "txn", "api": "txn", "stmts": [mk, del_b], "end": "commit", "query": "create (a)-[:R]->(b) ; delete b", "meta": {"prop": "C14"}},
+        {"cid": 3, "kind": "txn", "api": "txn", "stmts": [mk, ddel_a], "end": "commit", "query": "create ; detach delete a", "meta": {"prop": "C14"}},
+        dict(cid=4, kind="upd", api="exec", query=mk["query"], meta=dict(mk["meta"], prop="C14")),
+        dict(cid=5, kind="upd", api="exec", query=del_a["query"], meta=dict(del_a["meta"], prop="C14")),
+        dict(cid=6, kind="upd", api="exec", query=del_b["query"], meta=dict(del_b["meta"], prop="C14")),
+        dict(cid=7, kind="upd", api="exec", query=cd1["query"], meta=dict(cd1["meta"], prop="C14")),
+        dict(cid=8, kind="upd", api="exec", query=cd2["query"], meta=dict(cd2["meta"], prop="C14")),
+        dict(cid=10, kind="upd", api="exec", query=cd3["query"], meta=dict(cd3["meta"], prop="C14")),
+        dict(cid=9, kind="upd", api="exec", query=ddel_a["query"], meta=dict(ddel_a["meta"], prop="C14")),
+    ]
+    return [{"id": "capi/c13", "api": "c", "setup": CAPI_SETUP, "cases": c13},
+            {"id": "capi/c24", "api": "c", "setup": CAPI_SETUP, "cases": c24},
+            {"id": "capi/c14", "api": "c", "setup": CAPI_SETUP, "cases": c14}]
